@@ -5,6 +5,7 @@ CONSTANTS
   Barrier = TRUE
   AcqBarrier = TRUE
   NotLeaderPanics = TRUE
+  ApplyRefuses = TRUE
   MaxReq = 0
   MaxTransfers = 2
   MaxCancels = 0
